@@ -4,6 +4,7 @@ Everything here is plain JSON data so that op lists are explicit, replayable
 and shrinkable.  `build_model` is the only place that touches optyx objects.
 
 EXPR  := ["num", c]            python literal (goes through _ensure_expr)
+       | ["npnum", c]          np.float64(c): a number taken out of an array
        | ["const", c]          explicit Constant(c)
        | ["var", name]         scalar Variable
        | ["vel", vec, i]       VectorVariable element
@@ -157,7 +158,7 @@ def mentioned(spec, e, acc=None):
     while stack:
         e = stack.pop()
         t = e[0]
-        if t in ("num", "const", "param", "pel"):
+        if t in ("num", "npnum", "const", "param", "pel"):
             continue
         if t == "var":
             acc.add(e[1])
@@ -296,7 +297,13 @@ def build_model(spec, params_as_constants=False):
             v = ox.Variable(d["name"], **kw)
             m.elems[d["name"]] = v
         elif k == "vector":
-            v = ox.VectorVariable(d["name"], d["n"], **kw)
+            if d.get("via") == "from_numpy":
+                # the other public constructor: size taken from a data array
+                import numpy as np
+
+                v = ox.VectorVariable.from_numpy(d["name"], np.zeros(d["n"]), **kw)
+            else:
+                v = ox.VectorVariable(d["name"], d["n"], **kw)
             for i in range(d["n"]):
                 m.elems[f"{d['name']}[{i}]"] = v[i]
         else:
@@ -452,6 +459,8 @@ def build_expr(m, e):
     t = e[0]
     if t == "num":
         return e[1]
+    if t == "npnum":
+        return np.float64(e[1])  # a number the user pulled out of an array (rates[0] * price)
     if t == "const":
         return Constant(e[1])
     if t == "var":
@@ -696,7 +705,7 @@ def eval_vec(spec, vec, pt, pv=None):
 def eval_expr(spec, e, pt, pv=None):
     """Value of EXPR at point `pt` (name -> float) with parameter values `pv`."""
     t = e[0]
-    if t in ("num", "const"):
+    if t in ("num", "npnum", "const"):
         return float(e[1])
     if t == "var":
         return pt[e[1]]
